@@ -110,9 +110,9 @@ prop('C17', contracts=['c17_search'],
      explanation='PROVED: _find returns total = number of matches and exactly entries index..index+limit-1 of the match list (all from index when limit is None), formatted from the right tables (post.total, post.page.*); pages tile the list (lemmas); Range.__contains__ is the half-open interval. BOUNDED ONLY: _prime_keys matching, _scrub/_divide normalisation, facet.',
      trusted_base=['shelve.util.dissect name part as an uninterpreted function (C06)', 'every id of a matching prime key indexes its table (chain invariant, C08)'],
      assumptions=[A7, A8])
-prop('C18', contracts=['c18_chronicle'],
+prop('C18', contracts=['c18_chronicle', 'c04_complete'],
      technique=TECH + 'chronicle.find (day walk over a calendar model in linear integer arithmetic, loop invariant over day numbers, directory tree as uninterpreted predicates, truncation), chronicle._load (nested loop invariants, choice function for the file) and chronicle.append (abstract journal files, loop invariant of the time conversion); the composition and schedule.complete by the bounded grid on the real chronicle',
-     explanation='PROVED for every window, limit, clock and directory tree: chronicle.find hands _load only existing day directories of the requested window, each at most once, strictly newest day first, always with the caller\'s effective window (after defaulting to 1980-01-01, before to now) and outcome; without an effective limit EVERY existing day directory of the window is read (no day, month or year boundary is skipped: the month/year jumps only pass over days whose directory cannot exist); with a limit the walk stops early only once it holds at least `limit` entries and every day newer than an unread one has been read; the result is everything read (no limit), its first `limit` entries (upper bound/limit only: the newest), or its last `limit` entries (lower bound only); all three None raises ValueError and nothing else can raise. chronicle._load returns exactly the entries stored in the *.json files of that directory whose outcome is the requested one and whose completion time lies STRICTLY inside the window. chronicle.append leaves the journal <completion day>/<run id>.json holding its earlier entries in order followed by this entry exactly once, touches no other journal, records every time as text denoting the same instant, and raises TypeError exactly when a required key is missing. BOUNDED ONLY: the order inside one day (list.sort by completion time), the composition find+_load+append on a real directory tree, schedule.complete appending once per completed unit.',
+     explanation='PROVED for every window, limit, clock and directory tree: chronicle.find hands _load only existing day directories of the requested window, each at most once, strictly newest day first, always with the caller\'s effective window (after defaulting to 1980-01-01, before to now) and outcome; without an effective limit EVERY existing day directory of the window is read (no day, month or year boundary is skipped: the month/year jumps only pass over days whose directory cannot exist); with a limit the walk stops early only once it holds at least `limit` entries and every day newer than an unread one has been read; the result is everything read (no limit), its first `limit` entries (upper bound/limit only: the newest), or its last `limit` entries (lower bound only); all three None raises ValueError and nothing else can raise. chronicle._load returns exactly the entries stored in the *.json files of that directory whose outcome is the requested one and whose completion time lies STRICTLY inside the window. chronicle.append leaves the journal <completion day>/<run id>.json holding its earlier entries in order followed by this entry exactly once, touches no other journal, records every time as text denoting the same instant, and raises TypeError exactly when a required key is missing. schedule.complete hands chronicle.append exactly one entry per completed unit, carrying its outcome, target, task and run id. BOUNDED ONLY: the order inside one day (list.sort by completion time), the composition find+_load+append on a real directory tree.',
      trusted_base=['the chronicles tree: a day directory lies inside its month and year directories (os.makedirs in append)', 'os.path.join/isdir/isfile/listdir, open and json.load/json.dump on chronicles/<y>/<mm>/<dd>/<run>.json as abstract paths and file contents', 'datetime/timedelta arithmetic by contracts/calendar_model.py (proleptic Gregorian calendar, years 2..9000); isoformat/fromisoformat as an inverse pair; the date part of the completion text names the day directory'],
      assumptions=[A6])
 prop('C19', contracts=['c19_frontend'],
